@@ -7,6 +7,18 @@ instance uses fresh names (suffix = its position in the chain) so jedi's documen
 limits are not reached and every helper function is called exactly once.
 """
 import itertools
+import re
+
+_SHORT_NUM = re.compile(r'\b([A-Za-z])(\d+)\b')
+_SHORT = re.compile(r'\b([qrakfx])\b')
+
+
+def long_names(text):
+    """Carriers are written with terse names (v1, q); programs are rendered with identifiers of
+    >= 3 characters, because jedi deliberately does not search other modules for references
+    of names of <= 2 characters (references.py: "Very short names are not searched in other
+    modules") - a documented performance heuristic that is not what the properties are about."""
+    return _SHORT.sub(r'\1_p', _SHORT_NUM.sub(r'\1x\2', text))
 
 
 class Prog:
@@ -35,7 +47,10 @@ class Prog:
         if behaviour:
             main.append(self.behaviour)
         files['main.py'] = '\n'.join(main) + '\n'
-        return files
+        return {k: long_names(v) for k, v in files.items()}
+
+    def protocol(self):
+        return {long_names(n) for n in self.protocol_names}
 
     def owners(self):
         """{relpath: [owner of line 1, owner of line 2, ...]}"""
@@ -255,7 +270,7 @@ def _(p, i):
 
 @carrier('dictcomp')
 def _(p, i):
-    p.add("d%d = {k%d: %s for k%d in 'a'}" % (i, i, p.expr, i))
+    p.add("d%d = {k%d: %s for k%d in ['a']}" % (i, i, p.expr, i))
     p.expr = f"d{i}['a']"
 
 
@@ -354,8 +369,9 @@ def _(p, i):
 
 @carrier('dstar_call')
 def _(p, i):
-    p.add(f'def f{i}(q, r=1):\n    return q')
-    p.expr = "f%d(**{'q': %s})" % (i, p.expr)
+    p.add(f'def f{i}(qd{i}, r=1):\n    return qd{i}')
+    p.expr = "f%d(**{'qd%d': %s})" % (i, i, p.expr)
+    p.protocol_names.add(f'qd{i}')                  # reached only through a string
 
 
 @carrier('lambda_ret')
@@ -526,7 +542,7 @@ def _(p, i):
 def _(p, i):
     p.add(f'class C{i}:\n    def __init__(self, q):\n        self.a{i} = q')
     p.expr = f"getattr(C{i}({p.expr}), 'a{i}')"
-    p.protocol_names.add('__init__')
+    p.protocol_names |= {'__init__', f'a{i}'}      # reached only through a string
 
 
 @carrier('import_mod', core=True)
@@ -579,6 +595,34 @@ def _(p, i):
     p.files[f'mod{i}.py'] = list(p.main) + [(f'val{i} = {p.expr}', p.owner)]
     p.main = [(f'from mod{i} import *', p.owner)]
     p.expr = f'val{i}'
+
+
+def _lib(p, i, *lines):
+    p.files[f'lib{i}.py'] = [(x, p.owner) for l in lines for x in l.split('\n')]
+
+
+@carrier('kwarg_xmod')
+def _(p, i):
+    _lib(p, i, f'def f{i}(q, r{i}=None):\n    return r{i}')
+    p.add(f'from lib{i} import f{i}')
+    p.expr = f'f{i}(1, r{i}={p.expr})'
+
+
+@carrier('method_xmod')
+def _(p, i):
+    _lib(p, i, f'class C{i}:\n    def __init__(self, q):\n        self.a{i} = q\n'
+               f'    def get{i}(self):\n        return self.a{i}')
+    p.add(f'import lib{i}')
+    p.expr = f'lib{i}.C{i}({p.expr}).get{i}()'
+    p.protocol_names.add('__init__')
+
+
+@carrier('inherit_xmod')
+def _(p, i):
+    _lib(p, i, f'class B{i}:\n    def m{i}(self, q):\n        return q')
+    p.add(f'from lib{i} import B{i}')
+    p.add(f'class D{i}(B{i}):\n    def m{i}(self, q):\n        return super().m{i}(q)')
+    p.expr = f'D{i}().m{i}({p.expr})'
 
 
 CARRIER_MAP = dict(CARRIERS)
